@@ -13,7 +13,7 @@
 -/
 import Msmart.Lemmas.SessionRetry
 import Msmart.Lemmas.SessionRecover
-import Msmart.Props.C01
+import Msmart.Props.C01Layers
 import Msmart.Props.C06
 import Msmart.Lemmas.SessionContain
 import Msmart.Props.C13
